@@ -29,6 +29,7 @@ def ADD(a, b): return ('add', a, b)
 def DIV(a, b): return ('div', a, b)
 def REM(a, b): return ('rem', a, b)
 def ROUND0(d): return ('round', d, I(0), ('adt', 'rust_decimal::RoundingStrategy', 'MidpointAwayFromZero', ()))
+def POW10(p): return ('pow', I(10), ('trunc', p, 'u32'))     # 10u128.pow(precision as u32): precision <= 18 fits
 def CONTAINS(c, x): return ('contains', c, x)
 def ISEMPTY(x): return ('is_empty', x)
 def SOMEV(t): return V(t, 'Some', '0')
